@@ -295,3 +295,28 @@ Example C16_value_string_tail_reading_ex :
   tz_cleanup (us_to_ms (U "1897-05-31T00:00:00+10:04:52")) = U "1897-05-31T00:00:00+10:04" /\
   us_find 0 (U "1.12345") = None.
 Proof. vm_compute. repeat split. Qed.
+
+(* on the text aware_datetime.isoformat() produces (py_isoformat: six-digit fraction only when non-zero, offset seconds
+   only when non-zero) the two rewrites give exactly datetime_text: `.ffffff` -> `.mmm` by truncation, `:SS` removed *)
+Theorem C16_value_string_tail_of_isoformat : forall f o,
+  0 <= f_year f < 10000 -> 0 <= f_month f < 100 -> 0 <= f_day f < 100 -> 0 <= f_hour f < 100 ->
+  0 <= f_minute f < 100 -> 0 <= f_second f < 100 -> 0 <= f_us f < 1000000 -> Z.abs o < 360000 ->
+  value_string_tail (py_isoformat f o) = DOk (datetime_text f o).
+Proof. exact value_string_tail_isoformat. Qed.
+Print Assumptions C16_value_string_tail_of_isoformat.
+
+(* value_string(datetime) run on the regenerated regexes = the direct function iso_format of the theorems above, for
+   EVERY value and every zone whose UTC offsets are below 24 hours (Python's own bound for a utcoffset) *)
+Theorem C16_format_rx_is_format : forall (off_local off_utc : Z -> Z) w,
+  (forall u, Z.abs (off_utc u) < 86400) -> iso_format_rx off_local off_utc w = iso_format off_local off_utc w.
+Proof. exact iso_format_rx_is_iso_format. Qed.
+Print Assumptions C16_format_rx_is_format.
+
+Example C16_format_rx_is_format_ex :
+  (forall u, Z.abs (ex_off_utc u) < 86400) /\
+  iso_format_rx ex_off_local ex_off_utc ex_w_before = DOk (U "2024-03-10T01:30:00.123-05:00") /\
+  value_string_tail (py_isoformat (mkf 1897 5 31 0 0 0 0) 36292) = DOk (U "1897-05-31T00:00:00+10:04").
+Proof.
+  split; [|vm_compute; split; reflexivity].
+  intros u. unfold ex_off_utc. destruct (u <? ex_T); vm_compute; reflexivity.
+Qed.
